@@ -5,7 +5,11 @@
      decodes   : for every call of the prefix decoder, the line and the tags of the LM state it was started from,
      res       : the transcriptions of the page's lines after the call,
      alone     : the transcriptions the same page gets from a fresh instance,
-     last_line : tag of the text held in last_line afterwards, has_h / last_h: the LM state held afterwards.
+     last_line : tag of the text held in last_line afterwards, has_h / last_h: the LM state held afterwards,
+     env       : where the call was executed - "main" (the thread that built the decoder), "thread" (a worker thread of the same
+                 process), "grad-on" (the building thread after other code re-enabled torch's autograd, the torch default).
+                 PageDecoder has no variable for it: the result depends on the page and the configuration only, so the
+                 property-level clause is THE SAME for every environment.
 
    Detailed = FALSE: PROPERTY-LEVEL acceptance (the verdict): every call yields exactly the result the page has alone
      (hence also: the same page twice gives identical output).
@@ -22,7 +26,9 @@ TInit == /\ tid \in 1..NTraces
          /\ Init /\ cfgid = Traces[tid].cfgid
          /\ i = 1 /\ d = 0
 
+Envs == {"main", "thread", "grad-on"}
 PNext == /\ i <= NCalls
+         /\ Call.env \in Envs                    \* whichever of them
          /\ Call.outcome = "ok"
          /\ Call.res = Call.alone
          /\ i' = i + 1 /\ UNCHANGED <<vars, tid, d>>
